@@ -118,6 +118,14 @@ pub fn corruptions() -> Vec<Corruption> {
         Corruption { name: "treasury with a two-byte last character", apply: |m, w| m.protocol_fee_config.treasury_address = Some(format!("{}\u{e9}", &w.treasury[..w.treasury.len() - 2])), section: S_FEE },
         Corruption { name: "monitor made of multi-byte characters only", apply: |m, _| m.monitors = vec!["\u{1F600}".repeat(11)], section: S_MONITORS },
         Corruption { name: "validator with a two-byte character across the end of the validator prefix", apply: |m, w| m.native_chain_config.validators = vec![format!("{}\u{e9}{}", &w.vp[..w.vp.len() - 1], &w.val1[w.vp.len() + 1..])], section: S_NATIVE },
+        // bech32 splits at the LAST '1', and a prefix may itself contain '1': addresses that are checksum-valid under `<prefix>1x` start with `<prefix>1` textually
+        Corruption { name: "staker under the longer prefix <native>1x", apply: |m, w| m.native_chain_config.staker_address = addr::addr(&format!("{}1x", w.np), 11, 20), section: S_NATIVE },
+        Corruption { name: "collector under the longer prefix <native>1", apply: |m, w| m.native_chain_config.reward_collector_address = addr::addr(&format!("{}1", w.np), 12, 20), section: S_NATIVE },
+        Corruption { name: "validator under the longer prefix <valoper>1x", apply: |m, w| m.native_chain_config.validators = vec![w.val1.clone(), addr::addr(&format!("{}1x", w.vp), 13, 20)], section: S_NATIVE },
+        Corruption { name: "oracle under the longer prefix <protocol>1hub", apply: |m, w| m.protocol_chain_config.oracle_address = Some(addr::addr(&format!("{}1hub", w.pp), 14, 32)), section: S_PROTOCOL },
+        Corruption { name: "treasury under the longer prefix <protocol>1x", apply: |m, w| m.protocol_fee_config.treasury_address = Some(addr::addr(&format!("{}1x", w.pp), 15, 32)), section: S_FEE },
+        Corruption { name: "monitor under the longer prefix <protocol>1x", apply: |m, w| m.monitors = vec![w.monitor.clone(), addr::addr(&format!("{}1x", w.pp), 16, 20)], section: S_MONITORS },
+        Corruption { name: "staker under a shorter prefix (native prefix minus its last letter)", apply: |m, w| m.native_chain_config.staker_address = addr::addr(&w.np[..w.np.len() - 1], 17, 20), section: S_NATIVE },
         Corruption { name: "LST sub-denom empty", apply: |m, _| m.liquid_stake_token_denom = "".into(), section: 0 },
     ]
 }
